@@ -11,6 +11,7 @@ Four relations (DESIGN 4/C02), each stated so that it cannot over-reach:
 import copy
 import itertools
 import json
+import os
 
 from hypothesis import strategies as st
 
@@ -165,6 +166,10 @@ def case_strategy(depth):
 
 # ------------------------------------------------------------------------------------------------- the property
 def run_case(ctx, case):
+    if case.get("kind") == "path":
+        return path_family(ctx, only=case)
+    if case.get("kind") == "fallback":
+        return fallback_family(ctx, only=case)
     rel, shape = case["rel"], case["shape"]
     ctx.cls("rel:" + rel)
     kinds = G.kinds_in(shape)
@@ -449,13 +454,139 @@ def body(ctx):
     return f
 
 
+PATH_NAMES = ["plain.txt", "null", "Null", "true", "no", "1", "1.5", "1e3", "1.log", "[draft]", "{}", "{a: 1}", "a: b", "- x", "#c", "'q'", "1:30", "2001-01-01", ".5", "0x1F", "~x", "x y", "é", "*a", "&a"]
+
+
+def path_family(ctx, only=None):
+    """path types are types too: a string that names a creatable file (Path_fc) / an existing readable file (Path_fr) conforms, whatever a
+    YAML reader would make of its text - at top level, as a list item, as a dict value, under Optional and in a Union; the result is a
+    path whose spelling is the given string.  Enumerated completely (names x hints x channels)."""
+    import tempfile
+    from typing import Dict, List, Optional, Union
+
+    from jsonargparse import ArgumentError, ArgumentParser
+    from jsonargparse.typing import Path_fc, Path_fr
+
+    old = os.getcwd()
+    d = os.path.realpath(tempfile.mkdtemp(prefix="vf_c02p_"))
+    try:
+        os.chdir(d)
+        os.mkdir("existing")
+        for n in PATH_NAMES:
+            with open(os.path.join("existing", n), "w") as f:
+                f.write("x")
+        hints = {"bare": lambda T: T, "optional": lambda T: Optional[T], "list-item": lambda T: List[T], "dict-value": lambda T: Dict[str, T], "union-with-int": lambda T: Union[int, T]}
+        for tname, T, cwd in (("Path_fc", Path_fc, d), ("Path_fr", Path_fr, os.path.join(d, "existing"))):
+            os.chdir(cwd)
+            for hname, mk in hints.items():
+                for name in PATH_NAMES:
+                    for channel in ("argv", "object"):
+                        case = {"kind": "path", "type": tname, "hint": hname, "name": name, "channel": channel}
+                        if only is not None and case != only:
+                            continue
+                        try:
+                            loaded = __import__("yaml").safe_load(name)
+                        except Exception:  # noqa
+                            loaded = name
+                        if hname == "optional" and loaded is None:
+                            continue  # a spelling of null ('null', '#c' ...) under Optional is None by nature (see F23)
+                        if hname == "union-with-int" and isinstance(loaded, int):
+                            continue  # an int as well ('1', '0x1F', '1:30')
+                        ctx.begin(case)
+                        ctx.evaluations += 0
+                        p = ArgumentParser(exit_on_error=False)
+                        p.add_argument("--p", type=mk(T))
+                        wrap = {"list-item": lambda v: [v], "dict-value": lambda v: {"k": v}}.get(hname, lambda v: v)
+                        try:
+                            if channel == "object":
+                                r = p.parse_object({"p": wrap(name)}).p
+                            else:
+                                r = p.parse_args(["--p=" + (name if hname not in ("list-item", "dict-value") else json.dumps(wrap(name), ensure_ascii=False))]).p
+                            got = r[0] if hname == "list-item" else r["k"] if hname == "dict-value" else r
+                            outcome = "ok"
+                        except ArgumentError as ex:
+                            outcome, got = "rejected", str(ex)[:200]
+                        except Exception as ex:  # noqa
+                            outcome, got = "raises", fmt_exc(ex)
+                        ctx.cls(f"path-family:{tname}:{hname}:{outcome}")
+                        ctx.mark_nontrivial_enumerated()
+                        if outcome == "rejected":
+                            ctx.finding(f"C02/path/conforming-name-rejected/{tname}/{hname}/{channel}", {"name": name, "error": got})
+                        elif outcome == "raises":
+                            ctx.cls("escape (C03)")
+                        elif not isinstance(got, T) or str(got) != name:
+                            ctx.finding(f"C02/path/result-is-not-the-named-path/{tname}/{hname}/{channel}", {"name": name, "got": repr(got)})
+                        if not ctx.end(raise_on_fail=False):
+                            return
+    finally:
+        os.chdir(old)
+        import shutil
+
+        shutil.rmtree(d, ignore_errors=True)
+
+
+def fallback_family(ctx, only=None):
+    """Union members are tried in turn: a value that an earlier member refuses - however it refuses it - and a later member accepts
+    conforms to the Union.  Enumerated: (refusing member, accepting member, value) x {bare, list item, dict value} x {object, argv}."""
+    import datetime
+    import decimal
+    import math
+    import uuid
+    from typing import Dict, List, Union
+
+    from jsonargparse import ArgumentError, ArgumentParser
+    from jsonargparse.typing import ClosedUnitInterval, NonNegativeFloat, PositiveFloat, PositiveInt
+
+    big = 10 ** 400
+    table = [("PositiveFloat|int", Union[PositiveFloat, int], big, int), ("NonNegativeFloat|int", Union[NonNegativeFloat, int], big, int), ("ClosedUnitInterval|int", Union[ClosedUnitInterval, int], big, int),
+             ("float|int", Union[float, int], big, int), ("PositiveInt|float", Union[PositiveInt, float], float("inf"), float), ("PositiveInt|float:nan", Union[PositiveInt, float], float("nan"), float),
+             ("Decimal|str", Union[decimal.Decimal, str], "abc", str), ("UUID|str", Union[uuid.UUID, str], "abc", str), ("timedelta|str", Union[datetime.timedelta, str], "abc", str),
+             ("complex|str", Union[complex, str], "abc", str), ("range|str", Union[range, str], "abc", str), ("PositiveInt|str", Union[PositiveInt, str], "abc", str), ("int|str", Union[int, str], "abc", str)]
+    for tname, T, value, want_type in table:
+        for hname, mk, wrap, unwrap in (("bare", lambda t: t, lambda v: v, lambda r: r), ("list-item", lambda t: List[t], lambda v: [v], lambda r: r[0]), ("dict-value", lambda t: Dict[str, t], lambda v: {"k": v}, lambda r: r["k"])):
+            for channel in ("object", "argv"):
+                case = {"kind": "fallback", "union": tname, "hint": hname, "channel": channel}
+                if only is not None and case != only:
+                    continue
+                ctx.begin(case)
+                p = ArgumentParser(exit_on_error=False)
+                p.add_argument("--p", type=mk(T))
+                text = value if isinstance(value, str) else (".inf" if value == float("inf") else ".nan" if value != value else str(value))
+                try:
+                    if channel == "object":
+                        r = p.parse_object({"p": wrap(value)}).p
+                    else:
+                        r = p.parse_args(["--p=" + (text if hname == "bare" else "[" + text + "]" if hname == "list-item" else "{k: " + text + "}")]).p
+                    got, outcome = unwrap(r), "ok"
+                except ArgumentError as ex:
+                    outcome, got = "rejected", str(ex)[:300]
+                except Exception as ex:  # noqa
+                    outcome, got = "raises", fmt_exc(ex)
+                ctx.cls(f"fallback-family:{outcome}")
+                ctx.mark_nontrivial_enumerated()
+                if outcome == "rejected":
+                    ctx.finding(f"C02/union-fallback/value-of-a-later-member-rejected/{tname}/{hname}/{channel}", {"value": repr(value)[:60], "error": got})
+                elif outcome == "raises":
+                    ctx.cls("escape (C03)")
+                    ctx.finding(f"C02/union-fallback/value-of-a-later-member-raises/{tname}/{hname}/{channel}", {"value": repr(value)[:60], "error": got})
+                elif channel == "argv" and want_type is int and isinstance(got, float):
+                    ctx.cls("fallback-family: digits on the command line are also a float text (first member wins, overlapping members)")
+                elif type(got) is not want_type or not (got == value or (isinstance(value, float) and math.isnan(value) and math.isnan(got))):
+                    ctx.finding(f"C02/union-fallback/result-is-not-the-value-as-the-later-member/{tname}/{hname}/{channel}", {"value": repr(value)[:60], "got": repr(got)[:60]})
+                if not ctx.end(raise_on_fail=False):
+                    return
+
+
 def plan(tier):
     if tier == "quick":
-        return [{"n": 1200, "depth": 3} for _ in range(16)]
-    return [{"n": 20000, "depth": 4 if i % 2 else 3} for i in range(16)]
+        return [{"kind": "paths"}] + [{"n": 1200, "depth": 3} for _ in range(16)]
+    return [{"kind": "paths"}] + [{"n": 20000, "depth": 4 if i % 2 else 3} for i in range(16)]
 
 
 def run_shard(spec, ctx):
+    if spec.get("kind") == "paths":
+        path_family(ctx)
+        return fallback_family(ctx)
     run_given(ctx, case_strategy(spec["depth"]), body(ctx), spec["n"])
 
 
